@@ -208,3 +208,93 @@ unit(id="arrayrepeat.recreate", src="src/instruction/array_repeat.rs", path=[("i
          ("arrayrepeat.recreate.early_error_only_if_every_evaluation_fails", ["C04"],
           f"r is Err && {ARV} is Ok && {ARL} is Ok ==> (forall|s: int| #[trigger] arrayrepeat_res(*self, s) is Err)"),
      ])
+
+# ---------------------------------------------------------------- it $ init f / it ? T : recreate ------------------
+_FROM_RED = """
+impl vstd::std_specs::convert::FromSpecImpl<Reduce> for Instruction {
+    open spec fn obeys_from_spec() -> bool { true }
+    open spec fn from_spec(v: Reduce) -> Instruction { Instruction::Reduce(Arc::new(v)) }
+}
+impl From<Reduce> for Instruction { fn from(v: Reduce) -> (r: Instruction) { Instruction::Reduce(Arc::new(v)) } }
+"""
+RR1 = f"rec_res(self.iter.instruction, {RS0})"
+RR1S = f"rec_st(self.iter.instruction, {RS0})"
+RR2 = f"rec_res(self.initial_value.instruction, {RR1S})"
+RR2S = f"rec_st(self.initial_value.instruction, {RR1S})"
+RR3 = f"rec_res(self.function.instruction, {RR2S})"
+RR3S = f"rec_st(self.function.instruction, {RR2S})"
+unit(id="reduce.recreate", src=REDUCE, path=[("impl", "Recreate for Reduce"), ("fn", "recreate")], impl="Reduce",
+     stubs=["iws.recreate"], omit=["opaque_reduce"], unit_types=[_T_RED], extra=_FROM_RED,
+     sig_rewrites=[("&mut crate::instruction::local_variable::LocalVariables", "&mut LocalVariables")],
+     rewrites=[("local_variables: &mut crate::instruction::local_variable::LocalVariables", "local_variables: &mut LocalVariables")],
+     ensures=[
+         ("reduce.recreate.every_operand_is_folded_once_in_order_and_rebuilt_in_place", ["C04", "C07", "C11"],
+          f"(match {RR1} {{ Err(e) => r == Err::<Instruction, ExecError>(e), Ok(a) => (match {RR2} {{ Err(e) => r == Err::<Instruction, ExecError>(e), "
+          f"Ok(b) => (match {RR3} {{ Err(e) => r == Err::<Instruction, ExecError>(e), Ok(c) => r is Ok && r->Ok_0 is Reduce "
+          f"&& r->Ok_0->Reduce_0.iter.instruction == a && r->Ok_0->Reduce_0.initial_value.instruction == b "
+          f"&& r->Ok_0->Reduce_0.function.instruction == c && {RS9} == {RR3S} }}) }}) }})"),
+     ])
+_T_TF = dict(name="TypeFilter", src="src/instruction/type_filter.rs", path=[("struct", "TypeFilter")])
+_FROM_TF = """
+impl vstd::std_specs::convert::FromSpecImpl<TypeFilter> for Instruction {
+    open spec fn obeys_from_spec() -> bool { true }
+    open spec fn from_spec(v: TypeFilter) -> Instruction { Instruction::TypeFilter(Arc::new(v)) }
+}
+impl From<TypeFilter> for Instruction { fn from(v: TypeFilter) -> (r: Instruction) { Instruction::TypeFilter(Arc::new(v)) } }
+"""
+RTF = f"rec_res(self.iterator.instruction, {RS0})"
+unit(id="typefilter.recreate", src="src/instruction/type_filter.rs", path=[("impl", "Recreate for TypeFilter"), ("fn", "recreate")],
+     impl="TypeFilter", stubs=["iws.recreate"], omit=["opaque_typefilter"], unit_types=[_T_TF], extra=_FROM_TF,
+     ensures=[
+         ("typefilter.recreate.iterator_folded_type_kept_rebuilt_in_place", ["C04", "C11"],
+          f"(match {RTF} {{ Err(e) => r == Err::<Instruction, ExecError>(e), Ok(a) => r is Ok && r->Ok_0 is TypeFilter "
+          f"&& r->Ok_0->TypeFilter_0.iterator.instruction == a && r->Ok_0->TypeFilter_0.var_type == self.var_type }}) "
+          f"&& {RS9} == rec_st(self.iterator.instruction, {RS0})"),
+     ])
+
+# ---------------------------------------------------------------- it \ p : partition::exec -------------------------
+PART = "src/instruction/bin_op/partition.rs"
+_T_ARRV = dict(name="Array (value)", src="src/variable/array.rs", path=[("struct", "Array")],
+               rewrites=[("Arc<[Variable]>", "Tup"), ("pub(crate) ", "pub ")],
+               post="""impl vstd::std_specs::convert::FromSpecImpl<Array> for Variable {
+    open spec fn obeys_from_spec() -> bool { true }
+    open spec fn from_spec(v: Array) -> Variable { Variable::Array(Arr { elems: v.elements.elems }) }
+}
+impl From<Array> for Variable { #[verifier::external_body] fn from(v: Array) -> (r: Variable) { unimplemented!() } }""")
+_PI, _PF = "iter->Function_0", "function->Function_0"
+unit(id="partition.exec", src=PART, path=[("fn", "exec")], mod="partition", fragments=["iterators"],
+     omit=["opaque_array_value"], unit_types=[_T_ARRV],
+     fn_attrs=["#[verifier::exec_allows_no_decreases_clause]"],
+     # the macro's own expansion for a tuple of identifiers (macros/src/var.rs, Rule::tuple_ident)
+     rewrites=[(r"re:var!\(\(([a-z_0-9]+), ([a-z_0-9]+)\)\)", r"Variable::Tuple([Variable::from(\1), Variable::from(\2)].into())")],
+     requires=["iter is Function", "function is Function", f"typed_as_iterator({_PI})",
+               f"spec_iter_element(spec_fun_type({_PI})) is Some"],
+     injections=[
+         ("let mut right = Vec::new();\n",
+          "let mut right = Vec::new();\n    let ghost mut pulled: Seq<Tup> = Seq::empty();\n    let ghost (it0, fn0) = (*iter, *function);\n"),
+         ("while let Variable::Tuple(tuple) = iter.exec_with_args(&[])? {\n",
+          "while let Variable::Tuple(tuple) = iter.exec_with_args(&[])?\n"
+          "        invariant_except_break\n"
+          "            forall|i: int| 0 <= i < pulled.len() ==> continuing(#[trigger] pulled[i]), /*@obl:partition.exec.stops_at_the_first_pull_that_ends_the_sequence*/\n"
+          "        invariant\n"
+          "            *iter == it0, *function == fn0, typed_as_iterator(*iter),\n"
+          "            left@ == part_yes(*function, kept_elems(pulled)), /*@obl:partition.exec.first_array_holds_the_accepted_elements_in_pull_order*/\n"
+          "            right@ == part_no(*function, kept_elems(pulled)), /*@obl:partition.exec.second_array_holds_the_other_elements_in_pull_order*/\n"
+          "            forall|i: int| 0 <= i < left@.len() ==> accepted(*function, #[trigger] left@[i]),\n"
+          "            forall|i: int| 0 <= i < right@.len() ==> !accepted(*function, #[trigger] right@[i]),\n"
+          "        ensures\n"
+          "            forall|i: int| 0 <= i < pulled.len() - 1 ==> continuing(#[trigger] pulled[i]),\n"
+          "    {\n        " + _PUSH_HIST.format()),
+         ("if let Variable::Bool(true) = function.exec_with_args(",
+          "proof { let xs = kept_elems(pulled); assert(xs.drop_last() =~= kept_elems(pulled.drop_last())); }\n"
+          "        if let Variable::Bool(true) = function.exec_with_args("),
+     ],
+     ensures=[
+         ("partition.exec.first_array_holds_the_accepted_elements_in_pull_order", ["C11"], None),
+         ("partition.exec.second_array_holds_the_other_elements_in_pull_order", ["C11"], None),
+         ("partition.exec.stops_at_the_first_pull_that_ends_the_sequence", ["C11"], None),
+         ("partition.exec.yields_the_pair_accepted_then_others", ["C11"],
+          f"r is Ok ==> r->Ok_0 is Tuple && r->Ok_0->Tuple_0.elems@.len() == 2 && r->Ok_0->Tuple_0.elems@[0] is Array && r->Ok_0->Tuple_0.elems@[1] is Array "
+          f"&& (forall|i: int| 0 <= i < r->Ok_0->Tuple_0.elems@[0]->Array_0.elems@.len() ==> accepted({_PF}, #[trigger] r->Ok_0->Tuple_0.elems@[0]->Array_0.elems@[i])) "
+          f"&& (forall|i: int| 0 <= i < r->Ok_0->Tuple_0.elems@[1]->Array_0.elems@.len() ==> !accepted({_PF}, #[trigger] r->Ok_0->Tuple_0.elems@[1]->Array_0.elems@[i]))"),
+     ])
